@@ -1,4 +1,6 @@
 """property id -> harness modules that decide it."""
 REGISTRY = {
+    "C15": {"harnesses": ["harness.h15"], "level": "other"},
+    "C02": {"harnesses": ["harness.h02"], "level": "other"},
     "C10": {"harnesses": ["harness.h10"], "level": "other"},
 }
